@@ -7,7 +7,7 @@ then `pcheck ALL quick` decides all properties against the scratch copy. For gen
 tests of the touched packages are run too, so that the report can tell "killed by the test-suite" from "survives the
 tests". Output: one JSON line per mutant in the given result file.
 
-usage: mutsweep.py <result.jsonl> [--files f1,f2] [--jobs N] [--limit N] [--offset N]
+usage: mutsweep.py <result.jsonl> [--files f1,f2] [--jobs N] [--limit N] [--offset N] [--ops regex]
 """
 import json, os, re, shutil, subprocess, sys, tempfile, concurrent.futures as cf
 
@@ -56,7 +56,29 @@ def mutants_of(path, text):
                 if l[:j].count('"') % 2 == 1 or l[:j].count('`') % 2 == 1:
                     continue
                 out.append((i, f"swap {a.strip()}->{b.strip()}", l, l[:j] + b + l[j + len(a):]))
-        # 4. return flag flips handled by true/false swap
+        # 4. drop one operand of a conjunction / disjunction in a condition
+        m2 = re.match(r"^(\s*)(if|} else if|for) (.*) \{\s*$", l)
+        if m2 and '"' not in m2.group(3) and "`" not in m2.group(3):
+            cond = m2.group(3)
+            for opr in (" && ", " || "):
+                if opr in cond and "(" not in cond.split(opr)[0][-1:] and cond.count("(") == cond.count(")"):
+                    parts = cond.split(opr)
+                    if all(x.count("(") == x.count(")") for x in parts) and (";" not in cond):
+                        for k in range(len(parts)):
+                            rest = opr.join(parts[:k] + parts[k + 1:])
+                            out.append((i, f"drop operand {k} of {opr.strip()}", l, f"{m2.group(1)}{m2.group(2)} {rest} {{"))
+        # 5. defer executed immediately, continue <-> break
+        if s.startswith("defer ") and not s.startswith("defer func"):
+            out.append((i, "defer->now", l, l.replace("defer ", "", 1)))
+        if s == "continue":
+            out.append((i, "continue->break", l, l.replace("continue", "break")))
+        if s == "break":
+            out.append((i, "break->continue", l, l.replace("break", "continue")))
+        # 6. off-by-one in slice bounds / indices written without blanks
+        for a, b in (("+1:", ":"), ("+1]", "]"), ("-1]", "]"), ("[1:", "[0:"), (")-1", ")")):
+            if a in code and '"' not in l:
+                j = l.find(a)
+                out.append((i, f"offby1 {a}->{b}", l, l[:j] + b + l[j + len(a):]))
     return out
 
 
@@ -113,7 +135,7 @@ def evaluate(job):
 def main():
     outp = sys.argv[1]
     args = sys.argv[2:]
-    files, jobs, limit, offset = FILES, 10, None, 0
+    files, jobs, limit, offset, ops = FILES, 10, None, 0, None
     while args:
         a = args.pop(0)
         if a == "--files":
@@ -124,11 +146,14 @@ def main():
             limit = int(args.pop(0))
         elif a == "--offset":
             offset = int(args.pop(0))
+        elif a == "--ops":
+            ops = re.compile(args.pop(0))
     work = []
     for f in files:
         text = open(os.path.join("/repo", f)).read()
         for (i, op, old, new) in mutants_of(f, text):
-            work.append((f, i, op, old, new))
+            if ops is None or ops.search(op):
+                work.append((f, i, op, old, new))
     work = work[offset:]
     if limit:
         work = work[:limit]
